@@ -475,3 +475,34 @@ Proof.
       unfold codec_V2HeaderSize, codec_V2MaxPayloadBytes. lia. }
     eexists. split; [exact H2|]. exact (errno_wire_v2 c thr enc e p _ Hc Hcl He H2).
 Qed.
+
+(* ---- forwarding: what a hop receives is what it delivers when it sends the packet on ------------- *)
+Lemma rebuilt_idem g w : w <> [] ->
+  let b := rebuilt g w in body_to_bytes b <> [] /\ rebuilt g (body_to_bytes b) = b.
+Proof.
+  intros Hw. cbv zeta. unfold rebuilt. destruct (has_flag g root_PFlagError).
+  - split; [apply wire_nonempty_num; left; eexists; reflexivity|].
+    cbn [body_to_bytes]. rewrite <- (app_nil_r (put_varint _)).
+    rewrite varint_put_varint by apply varint_range. reflexivity.
+  - split; [exact Hw|reflexivity].
+Qed.
+
+Lemma v1_result_idem p : v1_result (v1_result p) = v1_result p.
+Proof.
+  unfold v1_result at 2 3. destruct (body_to_bytes (pbody p)) as [|x w] eqn:Ew.
+  - reflexivity.
+  - destruct (rebuilt_idem (flg p) (x :: w) ltac:(discriminate)) as [Hne Hre]. cbv zeta in *.
+    unfold v1_result. cbn [pbody cmd seq flg].
+    destruct (body_to_bytes (rebuilt (flg p) (x :: w))) as [|y w'] eqn:E2; [congruence|].
+    rewrite Hre. reflexivity.
+Qed.
+
+Lemma v2_result_idem p : v2_result (v2_result p) = v2_result p.
+Proof.
+  unfold v2_result at 2 3. destruct (body_to_bytes (pbody p)) as [|x w] eqn:Ew.
+  - reflexivity.
+  - destruct (rebuilt_idem (flg p) (x :: w) ltac:(discriminate)) as [Hne Hre]. cbv zeta in *.
+    unfold v2_result. cbn [pbody cmd seq flg typ node refers].
+    destruct (body_to_bytes (rebuilt (flg p) (x :: w))) as [|y w'] eqn:E2; [congruence|].
+    rewrite Hre. reflexivity.
+Qed.
